@@ -369,6 +369,7 @@ type job struct {
 }
 
 func TestCheck(t *testing.T) {
+	vk.UseT(t)
 	r := vk.Start("C18", "model_checking", 120*time.Second, 14*time.Minute)
 	if r.Replay != "" {
 		replay(t, r)
